@@ -64,11 +64,11 @@ Proof. exact vsched_sequential. Qed.
 Print Assumptions C08_sequential_is_a_schedule.
 
 (* the premise of abstracting from time in this property's model: the code it models waits, polls and gives up
-   exactly where the model says (primitive codes in Proofs/W_*.v); re-extracted from the source on every run *)
+   with exactly the kinds of primitives the model accounts for (codes in Proofs/W_*.v); re-extracted from the source on every run *)
 Require Import GV.Gen.Consts GV.Proofs.W_governor GV.Proofs.W_volvo GV.Proofs.W_engine.
-Theorem C08_time_abstraction : waits_governor = (@cons Z 7%Z (@cons Z 7%Z (@cons Z 7%Z (@nil Z)))) /\ waits_volvo = (@nil Z) /\ waits_engine = (@nil Z).
+Theorem C08_time_abstraction : waits_governor = (@cons Z 7%Z (@nil Z)) /\ waits_volvo = (@nil Z) /\ waits_engine = (@nil Z).
 Proof. exact (conj w_governor (conj w_volvo w_engine)). Qed.
-Check C08_time_abstraction : waits_governor = (@cons Z 7%Z (@cons Z 7%Z (@cons Z 7%Z (@nil Z)))) /\ waits_volvo = (@nil Z) /\ waits_engine = (@nil Z).
+Check C08_time_abstraction : waits_governor = (@cons Z 7%Z (@nil Z)) /\ waits_volvo = (@nil Z) /\ waits_engine = (@nil Z).
 Print Assumptions C08_time_abstraction.
 
 (* the governor inside the engine driver model is the source: Governor::next_state as translated from
